@@ -5,3 +5,4 @@ import MillerModel.Props.C01
 import MillerModel.Props.C11
 import MillerModel.Props.C12
 import MillerModel.Props.C03
+import MillerModel.Props.C09
